@@ -1580,6 +1580,8 @@ impl Vm {
     fn reset_stack(&mut self) {
         if let Some(fiber) = self.fiber.as_ref() {
             let mut borrowed_fiber = fiber.borrow_mut();
+            // Closures that outlive the failed run keep the variables they captured.
+            borrowed_fiber.close_upvalues(0);
             borrowed_fiber.stack.clear();
             borrowed_fiber.frames.clear();
         }
